@@ -54,8 +54,14 @@ TOLERANCES = {
              'propagates through this tree at '
              'this point); cases with delta > 1e-4*|ref| (ill-conditioned) '
              'or a non-finite reference are counted trivial',
-    'linearity': 'same bound, with the magnitudes of the three evaluations '
-                 'added',
+    'linearity': '|expr(a x + c y) - a expr(x) - c expr(y)|_max <= 4*(|a| t_x '
+                 '+ |c| t_y + t_comb) + 64*eps*(depth+1)*(|a||expr(x)| + '
+                 '|c||expr(y)| + T); t_* = value tolerances (propagated '
+                 'noise) of the three evaluations, T = largest magnitude of '
+                 'any intermediate value (node arguments / results) of the '
+                 'three reference evaluations, weighted by |a|, |c|, 1: the '
+                 'result may be a cancelling combination of terms of that '
+                 'size',
     'in-place': 'same bound as out-of-place; out is NaN-filled before the '
                 'call',
     'alias-inplace': 'y = x.copy(); e(y, out=y) for every subexpression e '
@@ -607,11 +613,30 @@ def run_case(desc):
                                   False), env.set(ran))
         (r1, t1, _), (r2, t2, _) = refs[0], refs[1]
         expect = ex.vadd(ex.vscale(a, r1), ex.vscale(c, r2))
-        tol = (abs(a) * t1 + abs(c) * t2) * 4 + \
-            256 * env.eps * (depth + 1) * (
-                abs(a) * ex.vmaxabs(r1) + abs(c) * ex.vmaxabs(r2))
+        # tolerance derived like the value tolerance: propagated noise of
+        # the three evaluations (t1, t2, tc) plus eps times the magnitudes of
+        # the terms a*expr(x), c*expr(y) and of the largest intermediate
+        # value T of the three evaluations (the result may be a cancelling
+        # combination of terms of that size, e.g. a stencil applied to a
+        # constant)
+        rc, tc, sc = _reference(env, root, comb, depth)
+        T = 0.0
+        if sc == 'ok':
+            try:
+                for w, p in ((abs(a), x1), (abs(c), x2), (1.0, comb)):
+                    tr = Tracer(env)
+                    tr.ev(root, p)
+                    T += w * max([ex.vmaxabs(p)] + [
+                        ex.vmaxabs(v) for v in tr.outputs.values()
+                        if ex.vfinite(v)] + [
+                        ex.vmaxabs(v) for v in tr.inputs.values()])
+            except ex.RefOverflow:
+                sc = 'nonfinite'
+        tol = 4 * (abs(a) * t1 + abs(c) * t2 + (tc or 0.0)) + \
+            64 * env.eps * (depth + 1) * (
+                abs(a) * ex.vmaxabs(r1) + abs(c) * ex.vmaxabs(r2) + T)
         err = ex.vmaxabs(ex.vsub(yc, expect))
-        if not err <= tol + 1e-300:
+        if sc == 'ok' and not err <= tol + 1e-300:
             culprit = _nonlinear_culprit(env, root)
             raise Violation('C04|linear-flag|{}|{}'.format(
                 _site(culprit), reg),
